@@ -162,7 +162,14 @@ def run_functions(ctx, sources, modes, on_result=None, check_op='check.func', cl
                     on_result(src, fin, strict, obs, res, wire)
                 if 'raised' not in obs and check_op:
                     early = obs['infinite']
-                    req = {'op': check_op, 'ast': wire, 'vars': obs['variables'], 'infinite': obs['infinite'],
+                    # pymwp's variable scan skips the reserved names true/false, its analysis treats them as
+                    # (never assigned) variables; an early exit reports the variables met so far only.  The
+                    # calculus side reads them as variables too: make sure they are in the universe.
+                    import re as _re
+                    uni = list(obs['variables']) + [w for w in ('true', 'false')
+                                                    if _re.search(r'\b%s\b' % w, src) and w not in obs['variables']]
+                    req = {'op': check_op, 'ast': wire, 'vars': uni if obs['infinite'] else obs['variables'],
+                           'infinite': obs['infinite'],
                            'index': obs['index']}
                     if early:
                         req['early_exit'] = True
